@@ -367,7 +367,16 @@ def check_compbasis(desc):
     r = 0.0
     for (xs, b), w in zip(cb.split(x), whole):
         r = max(r, _fields_equal(w, b.interpolate(xs)))
+    # the same form on the equivalent ElementComposite basis: equal up to the permutation given by split_indices
+    from skfem.element import ElementComposite
+    perm_err = 0.0
+    if not desc.get('restricted'):
+        ec = CellBasis(m, ElementComposite(e1, e2), intorder=io)
+        Aec = BilinearForm(f).assemble(ec, **dict(par)).toarray()
+        perm = np.concatenate(ec.split_indices())
+        perm_err = _rel(Aec[np.ix_(perm, perm)], A)
     out = pre + [('compositebasis-blocks', _rel(A, K.toarray()), None), ('compositebasis-interp', r, None),
+                 ('compositebasis=elementcomposite-permuted', perm_err, None),
            ('bmat-blocks', 0.0 if list(K.blocks) == [b1.N] else float('inf'), {'got': list(map(int, K.blocks)), 'expected': [int(b1.N)]})]
     return out, {'terms': terms, 'N': [int(b1.N), int(b2.N)]}
 
